@@ -745,6 +745,24 @@ def E2_cif_tags(repo, clause):
         ok = isinstance(c.func, ast.Attribute) and isinstance(c.func.value, ast.Name) and c.func.value.id == wrapped and \
             isinstance(cellv, ast.Call) and call_name(cellv) == "cellpar_to_cell"
         obs.append(Ob("E2", clause, r, dots[0], ok, "Cartesian = fractional (rows) . cell (rows = lattice vectors)", slot="frac-to-cart"))
+    # reader: the six cell parameters reach cellpar_to_cell in the order of their tags (a, b, c, alpha, beta, gamma)
+    want_tags = ["_cell_length_a", "_cell_length_b", "_cell_length_c", "_cell_angle_alpha", "_cell_angle_beta", "_cell_angle_gamma"]
+    for cpc in [x for x in calls_in(r) if call_name(x) == "cellpar_to_cell" and x.args and isinstance(x.args[0], (ast.List, ast.Tuple)) and len(x.args[0].elts) == 6]:
+        argn = [e_.id if isinstance(e_, ast.Name) else None for e_ in cpc.args[0].elts]
+        unp = [n_ for n_ in r.own_nodes() if isinstance(n_, ast.Assign) and isinstance(n_.targets[0], ast.Tuple) and len(n_.targets[0].elts) == 6
+               and all(isinstance(e_, ast.Name) for e_ in n_.targets[0].elts) and set(e_.id for e_ in n_.targets[0].elts) & set(x_ for x_ in argn if x_)]
+        if len(unp) != 1 or None in argn:
+            continue
+        tnames = [e_.id for e_ in unp[0].targets[0].elts]
+        # the tag list the values are read from
+        tag_lists = [n_ for n_ in r.own_nodes() if isinstance(n_, ast.Assign) and isinstance(n_.value, (ast.List, ast.Tuple)) and
+                     [const_value(e_) for e_ in n_.value.elts] == want_tags]
+        src_ok = bool(tag_lists) and isinstance(unp[0].value, ast.ListComp) and isinstance(unp[0].value.generators[0].iter, ast.Name) and \
+            unp[0].value.generators[0].iter.id == tag_lists[0].targets[0].id and not unp[0].value.generators[0].ifs
+        order_ok = argn == tnames
+        obs.append(Ob("E2", clause, r, cpc, src_ok and order_ok,
+                      "cell parameters: read in tag order (a, b, c, alpha, beta, gamma)=%s and handed to cellpar_to_cell as %s (unpacked as %s)" % (src_ok, argn, tnames),
+                      slot="cell-parameter-order", positive=src_ok and not order_ok and set(argn) <= set(tnames), undecided=not src_ok))
     # writer: fractional = positions . inv(cell)
     from .common import linalg_chain
     frs = []
